@@ -271,6 +271,18 @@ class Client:
 
 
 # ------------------------------------------------------------------------------------------ one run
+def auth_section(t, folder, ht):
+    """a configuration of auth back-end t that needs no external service: the external servers are unreachable, a login
+    through such a back-end is refused at once -- but it has run the back-end's code"""
+    a = {"type": t, "delay": "0"}
+    a.update({"htpasswd": {"htpasswd_filename": ht, "htpasswd_encryption": "plain"},
+              "imap": {"imap_host": "127.0.0.1:1", "imap_security": "none"},
+              "ldap": {"ldap_uri": "ldap://127.0.0.1:1", "ldap_base": "dc=x"},
+              "oauth2": {"oauth2_token_endpoint": "http://127.0.0.1:1/t"},
+              "dovecot": {"dovecot_socket": os.path.join(folder, "no-such-socket")}}.get(t, {}))
+    return a
+
+
 class Run:
     def __init__(self, cfg, lockstep, rng):
         self.cfg, self.lockstep, self.rng = cfg, lockstep, rng
@@ -290,6 +302,8 @@ class Run:
         self.events, self.obs = [], []
         self.ops = []
         self.fail = []               # monitor failures (dicts)
+        self.stray_timeout = None
+        self.stray_reported = False
         self.notes = []
         self.in_handler = 0
         self.max_in_handler = 0
@@ -379,6 +393,23 @@ class Run:
             rec = dict(k=k, rl_ws=ws, rl_listen=ls, rl_stop=st, other=other, rlist=list(r), ret=None,
                        total_ws=total_ws)
             self.sel_calls.append(rec)
+            # model assumption: serve() WAITS on these sockets (select without timeout, recv(1) in the finally block);
+            # a timeout on them -- e.g. a changed process-wide socket default -- makes the shutdown path give up
+            for sck in r:
+                if sck in self.wsock_conn or sck is self.shutdown_out:
+                    try:
+                        to = sck.gettimeout()
+                    except OSError:
+                        to = None
+                    if to is not None:
+                        self.stray_timeout = max(self.stray_timeout or 0.0, to)
+                        if not self.stray_reported:
+                            self.stray_reported = True
+                            self.fail.append(dict(
+                                what="a socket serve() waits on (worker socket pair / shutdown socket) is not blocking: timeout "
+                                     "%.1f s, process-wide socket default timeout = %r: the wait for a worker in the shutdown path "
+                                     "gives up after that time" % (to, socket.getdefaulttimeout()),
+                                conn=self.wsock_conn.get(sck), auth_type=self.cfg.get("auth_type", "htpasswd")))
         self.parked.set()
         if self.lockstep:
             self.permits.acquire()
@@ -409,6 +440,8 @@ class Run:
             "logging": {"level": "critical"}}, "verif", privileged=True)
         if self.cfg.get("real_app"):
             conf.update({"auth": {"type": "none"}}, "verif", privileged=True)
+        if self.cfg.get("auth_type"):
+            conf.update({"auth": auth_section(self.cfg["auth_type"], self.folder, ht)}, "verif", privileged=True)
         if self.cfg.get("ssl"):
             static = os.path.join(os.path.dirname(radicale.__file__), "tests", "static")
             conf.update({"server": {"ssl": "True", "certificate": os.path.join(static, "cert.pem"),
@@ -1689,6 +1722,103 @@ def run_silent(job):
     return res
 
 
+# ------------------------------------------------------------------------------------------ every auth back-end x login x shutdown
+def run_authsweep(job):
+    """Free-running.  The server is configured with auth back-end job["auth_type"] (external servers unreachable).
+    History: (1) a client makes a login attempt (the back-end's code runs), (2) another client's request enters the
+    (blocking) handler, (3) shutdown is signalled, (4) the request stays in flight for `hold` seconds -- 1 s, or longer
+    than any timeout observed on the sockets serve() waits on --, (5) the handler returns.  Required: serve() is still
+    waiting at (4), the request gets its complete response, serve() returns without an exception."""
+    global FAILED_SCRIPTS
+    cfg = dict(job["cfg"])
+    t = cfg["auth_type"]
+    run = Run(cfg, False, random.Random(job.get("seed", 0)))
+    res = dict(cfg=cfg, inconclusive=None, authsweep=True, seed=job.get("seed", 0))
+    steps = []
+    saved_default = socket.getdefaulttimeout()
+
+    def client(c, headers):
+        cl = Client(c, 0)
+        s_ = socket.socket(socket.AF_INET, socket.SOCK_STREAM)
+        s_.settimeout(DEADLINE)
+        s_.bind(("127.0.0.1", 0))
+        with run.lock:
+            run.clients[c] = cl
+            run.by_port[s_.getsockname()[1]] = c
+        s_.connect(("127.0.0.1", run.ports[0]))
+        cl.sock = s_
+        cl.sent = {"verb": "GET", "method": True}
+        s_.sendall(("GET /c%d HTTP/1.1\r\nHost: localhost\r\nX-Conn: %d\r\n%s\r\n" % (c, c, headers)).encode())
+        return cl
+    try:
+        try:
+            run.start()
+        except Inconclusive as e:
+            if run.serve_exc and "requires" in run.serve_exc:
+                res["unavailable"] = run.serve_exc      # the module of this back-end is not installed
+                return res
+            raise e
+        run.release_event(0).set()
+        # (1) login attempts: a refused and (for back-ends that accept it) a good one
+        for i, cred in enumerate((b"good:pw", b"good:wrong")):
+            c = client(i, "Authorization: Basic %s\r\nRemote-User: good\r\nX-Remote-User: good\r\n" %
+                       base64.b64encode(cred).decode())
+            run.release_event(i).set()
+            c.pump(DEADLINE)
+            steps.append(dict(login=cred.decode(), status=parse_response(c.data)[0]))
+            if not c.eof:
+                run.fail.append(dict(what="authsweep(%s): login attempt gets no answer" % t))
+        # (2) a request enters the handler and stays there
+        r = client(2, "")
+        if not run.wait_for(lambda: r.entered):
+            run.fail.append(dict(what="authsweep(%s): anonymous request never reaches the handler" % t,
+                                 status=parse_response(r.data)[0]))
+            raise Inconclusive("not entered")
+        # (3) shutdown
+        run.stopped = True
+        t_stop = time.monotonic()
+        run.shutdown_in.close()
+        run.wait_for(lambda: run.sel_calls and run.sel_calls[-1]["ret"] is not None and run.sel_calls[-1]["ret"]["stop"])
+        hold = 1.0 if not run.stray_timeout else min(run.stray_timeout + 1.5, 20.0)
+        steps.append(dict(hold=hold, stray_timeout=run.stray_timeout, default_timeout=socket.getdefaulttimeout()))
+        # (4) serve() must wait for the request in flight
+        run.serve_thread.join(hold)
+        if run.t_return is not None:
+            run.fail.append(dict(
+                what="auth type %s, after a login attempt: serve() left its shutdown path %.1f s after the shutdown request "
+                     "while a request was still in flight (%s)" % (t, run.t_return - t_stop, run.serve_exc or "returned"),
+                exception=run.serve_exc))
+        # (5) the handler returns
+        run.release_event(2).set()
+        r.pump(DEADLINE)
+        st, complete = parse_response(r.data)
+        steps.append(dict(inflight_status=st, complete=complete))
+        if st != 200 or not complete:
+            run.fail.append(dict(what="auth type %s: request in flight at shutdown did not get a complete response" % t, status=st))
+        if not run.wait_for(lambda: run.t_return is not None):
+            run.fail.append(dict(what="auth type %s: serve() does not return after shutdown" % t))
+        elif run.serve_exc:
+            run.fail.append(dict(what="auth type %s: serve() raised %s in its shutdown path" % (t, run.serve_exc)))
+        elif run.t_closing.get(2) is None or run.t_closing[2] > run.t_return:
+            run.fail.append(dict(what="serve() returned while accepted connections were still being processed", conns=[2]))
+    except Inconclusive as e:
+        if not run.fail:
+            res["inconclusive"] = str(e)
+    except Exception:
+        res["inconclusive"] = "driver error: " + traceback.format_exc()
+        res["driver_error"] = True
+    finally:
+        try:
+            run.cleanup()
+        except Exception:
+            pass
+        socket.setdefaulttimeout(saved_default)
+    res.update(fail=run.fail, notes=run.notes, steps=steps, serve_exc=run.serve_exc)
+    if run.fail:
+        FAILED_SCRIPTS += 1
+    return res
+
+
 # ------------------------------------------------------------------------------------------ exit signals, real process
 def run_signals(job):
     """`python -m radicale` as a child process (nothing substituted).  job: {"inflight": bool, "signals": ["TERM", "HUP", ...],
@@ -1839,6 +1969,8 @@ def main():
                 out.append(run_silent(job))
             elif job["kind"] == "signals":
                 out.append(run_signals(job))
+            elif job["kind"] == "authsweep":
+                out.append(run_authsweep(job))
             else:
                 out.append(run_gate(job))
         except BaseException:
